@@ -768,7 +768,8 @@ type c04Entry struct {
 
 func (g *c04o) portEntry() c04Entry {
 	target := []int{80, 443, 8080}[g.r.Intn(3)]
-	published := []string{"", "8080", "8443", "9000"}[g.r.Intn(4)]
+	// "9000-9001" with a single target: a published RANGE that stays one entry (short and long syntax alike)
+	published := []string{"", "8080", "8443", "9000", "9000-9001"}[g.r.Intn(5)]
 	proto := g.str("tcp", "tcp", "udp")
 	host := g.str("", "", "127.0.0.1")
 	if published == "" {
@@ -794,12 +795,14 @@ func (g *c04o) portEntry() c04Entry {
 		return c04Entry{raw: s, key: key}
 	}
 	m := map[string]any{"target": target}
+	if g.chance(1, 4) {
+		m["target"] = strconv.Itoa(target) // the schema also accepts the target as a string
+	}
 	if published != "" {
-		if g.chance(1, 2) {
-			m["published"] = published
-		} else {
-			n, _ := strconv.Atoi(published)
+		if n, err := strconv.Atoi(published); err == nil && g.chance(1, 2) {
 			m["published"] = n
+		} else {
+			m["published"] = published
 		}
 	}
 	if proto != "tcp" || g.chance(1, 2) {
